@@ -483,13 +483,13 @@ structure Graph.WF (g : Graph) : Prop where
 theorem Graph.wf_of_wfb (g : Graph) (h : g.wfb = true) : g.WF := by
   simp only [Graph.wfb, Bool.and_eq_true, beq_iff_eq, List.all_eq_true, decide_eq_true_eq,
     List.mem_range] at h
-  obtain ⟨⟨⟨⟨⟨h1, h2⟩, h3⟩, h4⟩, h5⟩, h6⟩ := h
+  obtain ⟨⟨⟨h3, h4⟩, h5⟩, h6⟩ := h
   refine ⟨?_, ?_, ?_, ?_⟩
   · intro e s d he
     have hm : (s, d) ∈ g.edges.toList := Array.mem_toList_iff.2 (Array.mem_of_getElem? he)
     exact h3 _ hm
   · intro v e he
-    by_cases hv : v < g.n
+    by_cases hv : v < g.adj.size
     · exact h4 v hv e he
     · have : g.outEdges v = [] := by
         unfold Graph.outEdges
@@ -498,7 +498,7 @@ theorem Graph.wf_of_wfb (g : Graph) (h : g.wfb = true) : g.WF := by
       rw [this] at he
       exact absurd he List.not_mem_nil
   · intro v e he
-    by_cases hv : v < g.n
+    by_cases hv : v < g.rev.size
     · exact h5 v hv e he
     · have : g.inEdges v = [] := by
         unfold Graph.inEdges
@@ -795,16 +795,17 @@ theorem ofEdges_wfb (n : Nat) (es : List (Nat × Nat)) (h : ∀ p ∈ es, p.1 < 
     (Graph.ofEdges n es).wfb = true := by
   simp only [Graph.wfb, Bool.and_eq_true, beq_iff_eq, List.all_eq_true, decide_eq_true_eq,
     List.mem_range]
-  refine ⟨⟨⟨⟨⟨?_, ?_⟩, ?_⟩, ?_⟩, ?_⟩, ?_⟩
-  · simp [Graph.ofEdges]
-  · simp [Graph.ofEdges]
+  have hadj : (Graph.ofEdges n es).adj.size = n := by simp [Graph.ofEdges]
+  have hrev : (Graph.ofEdges n es).rev.size = n := by simp [Graph.ofEdges]
+  refine ⟨⟨⟨?_, ?_⟩, ?_⟩, ?_⟩
   · intro p hp
     exact h p (by simpa [Graph.ofEdges] using hp)
   · intro v hv e he
-    have hv' : v < (Graph.ofEdges n es).n := hv
+    rw [hadj] at hv
     rw [ofEdges_outEdges n es v hv] at he
     simpa [Graph.srcOf, Graph.ofEdges] using (List.mem_filter.1 he).2
   · intro v hv e he
+    rw [hrev] at hv
     rw [ofEdges_inEdges n es v hv] at he
     simpa [Graph.dstOf, Graph.ofEdges] using (List.mem_filter.1 he).2
   · intro e he
